@@ -152,6 +152,11 @@ def items(tier, seed):
                     add("ppo", E=E, T=T, full=1, chunk=c, nchunks=4)
             continue
         add("ppo", E=E, T=T)
+    # the same with a logger attached (collect_trajectories then handles the final observations of finished episodes itself)
+    for E, T in ([(2, 1), (2, 2), (3, 1)] if q else [(2, 1), (2, 2), (3, 1), (1, 3)]):
+        add("ppo", E=E, T=T, logged=1)
+    for f in range(3):
+        add("ppo", E=3, T=2, focus=f, logged=1)
     # MR.Q critic target
     for g in ([0.5, 0.99] if q else [0.0, 0.5, 0.99, 1.0]):
         for N, H in itertools.product([1, 2, 3], [1, 2, 3]):
@@ -867,9 +872,14 @@ class Ppo(EnvBatch):
             return lambda: self.SeqEnv(obs_seq, [self.reward(e, t, steps[t][0]) for t in range(T)], [s[1] for s in steps])
 
         envs = gym.vector.SyncVectorEnv([mk(e) for e in range(E)], autoreset_mode=gym.vector.AutoresetMode.SAME_STEP)
+        logger = None
+        if self.item.get("logged"):
+            from vlib import drivers
+
+            logger = drivers.RecLogger()  # train_ppo wraps the environments in RecordEpisodeStatistics itself
         S["cap"].clear()
         try:
-            ppo.train_ppo(envs, S["actor"], S["critic"], S["oa"], S["oc"], iterations=1, epochs=1, batch_size=T, seed=1, logger=None, progress_bar=False)
+            ppo.train_ppo(envs, S["actor"], S["critic"], S["oa"], S["oc"], iterations=1, epochs=1, batch_size=T, seed=1, logger=logger, progress_bar=False)
             jax.effects_barrier()
         except RuntimeError:
             raise
